@@ -1,3 +1,34 @@
-use crate::SearchResult;
-pub fn search(_seed: u64, _full: bool, _rt: &tokio::runtime::Runtime) -> SearchResult { SearchResult { evaluations: 0, failures: vec![], summary: "not yet implemented".into() } }
-pub fn replay(_case: &[&str], _rt: &tokio::runtime::Runtime) -> (bool, String) { (false, "not yet implemented".into()) }
+//! C09: the auditor must reject a transition whose node set overlaps (a subtree root together with a new leaf below it):
+//! contract auditor/verify_append_only_hash (P obligation: batch_insert_nodes in Auditor mode requires a prefix-free set).
+use crate::{Failure, SearchResult};
+use akd_core::{ExampleLabel, ExperimentalConfiguration, WhatsAppV1Configuration};
+
+fn run(cfg: &str, rt: &tokio::runtime::Runtime, out: &mut Vec<Failure>) {
+    let r = if cfg == "whatsapp_v1" {
+        rt.block_on(akd::vx_export::d2_auditor_overlap::<WhatsAppV1Configuration>())
+    } else {
+        rt.block_on(akd::vx_export::d2_auditor_overlap::<ExperimentalConfiguration<ExampleLabel>>())
+    };
+    if let Ok(true) = r {
+        out.push(Failure {
+            clause: "auditor/verify_append_only_hash#body".into(),
+            case: vec!["c09".into(), cfg.into()],
+            input: format!("[{cfg}] start tree leaves {{00.., 20.., 80..}}; proof: unchanged = {{node '00' (2 bits), leaf 80..}}, inserted = {{leaf 10..}}; end hash = tree in which the subtree under '00' is replaced by the single leaf 10.."),
+            expected: "verify_consecutive_append_only rejects (two committed leaves were deleted)".into(),
+            observed: "accepted".into(),
+            finding_id: None,
+        });
+    }
+}
+
+pub fn search(_seed: u64, _full: bool, rt: &tokio::runtime::Runtime) -> SearchResult {
+    let mut out = vec![];
+    for cfg in ["whatsapp_v1", "experimental"] { run(cfg, rt, &mut out); }
+    SearchResult { evaluations: 2, failures: out, summary: "overlapping node set (subtree root + new leaf below it) with a server-chosen end hash, both configurations".into() }
+}
+
+pub fn replay(case: &[&str], rt: &tokio::runtime::Runtime) -> (bool, String) {
+    let mut out = vec![];
+    run(case[0], rt, &mut out);
+    match out.first() { Some(f) => (true, format!("{}: expected {}, observed {}", f.input, f.expected, f.observed)), None => (false, "holds".into()) }
+}
